@@ -78,6 +78,11 @@ def run(check, prog):
     # the largest overlap is (rule shared with C20)
     c20.overlaps(check, prog)
     model_constructor_wiring(check, prog)
+    # lnposterior(pars, data, pixels=n) draws its pixels with make_subset_data,
+    # from grids and from data that are already flattened subsets alike (rule
+    # shared with C07)
+    from . import c07
+    c07.subset(check, prog)
 
 
 def model_constructor_wiring(check, prog):
